@@ -2985,6 +2985,8 @@ val run_msg0 : sx -> sx
 
 val run_conc1 : sx -> sx
 
+val run_blk : sx -> sx
+
 val run_lvl : sx -> sx
 
 val run_lib : sx -> sx
@@ -4837,6 +4839,8 @@ val run_v5verify : sx -> sx
 val run_decode0 : sx -> sx
 
 val run_expiry : sx -> sx
+
+val run_entry0 : sx -> sx
 
 val wallet_code_bocs : (n * n list) list
 
